@@ -30,10 +30,11 @@ Require Import FL.Flw.NumRestart FL.Flw.TsTime FL.Flw.TsNames FL.Flw.TsInv FL.Fl
 (* Timestamps naming (rCURRENT; a closed file is named by the second in which it was started, made collision-free by
    .restart-NNNN): every criterion, buffer capacity, append flag, local time or UTC, every history in which the clock does not go
    backwards, up to the year 9999: the closed files - named by pairwise distinct keys (second, position within the second) that
-   increase in closing order - and rCURRENT hold exactly the written bytes (hypothesis tag_free: neither the fixed name part nor the
-   suffix contains ".restart-"; shown necessary by a counterexample in Flw/TsTheorems.v) *)
+   increase in closing order - and rCURRENT hold exactly the written bytes (hypothesis tag_ok: neither the fixed name part nor the
+   suffix contains a time stamp infix followed by ".restart-", and the suffix does not start with "restart-"; a basename like
+   "a.restart-7" is fine; the condition on the start of the suffix is shown necessary by an example in Flw/TsTheorems.v) *)
 Theorem C01_stream_timestamps c crit t0 off ops :
-  tscfg c crit -> tag_free c -> Forall basic_op ops -> Forall tick_ok ops ->
+  tscfg c crit -> tag_ok c -> Forall basic_op ops -> Forall tick_ok ops ->
   (0 <= t0 + ts_e c off)%Z -> (t0 + elapsed ops + ts_e c off < sec_max)%Z -> (N.of_nat (length ops) <= usize_max)%N ->
   let f := wfs (s_w (fst (run (sys0 t0 off) (OStart c :: ops ++ [OStop])))) in
   (names f = [] /\ written ops = [])
@@ -46,7 +47,7 @@ Proof. exact (timestamps_stream c crit t0 off ops). Qed.
 
 (* ... and the reader of the executable oracle (files ordered by parsed infix) reads them in exactly that order *)
 Theorem C01_reader_timestamps c crit t0 off ops :
-  tscfg c crit -> tag_free c -> not_gz c -> Forall basic_op ops -> Forall tick_ok ops ->
+  tscfg c crit -> tag_ok c -> not_gz c -> Forall basic_op ops -> Forall tick_ok ops ->
   (0 <= t0 + ts_e c off)%Z -> (t0 + elapsed ops + ts_e c off < sec_max)%Z -> (N.of_nat (length ops) <= usize_max)%N ->
   let x := fst (run (sys0 t0 off) (OStart c :: ops ++ [OStop])) in
   concat (family_in_order c (snap_of x)) = written ops
